@@ -446,6 +446,7 @@ def run(ctx: RuleContext, p: Program) -> None:
     # interprets the whole registration / notification chain and reads the views through their own methods
     from . import viewlive
     ctx.try_rule(viewlive.rule_view_live, p, 'VIEW-LIVE', 2 if ctx.tier == 'quick' else 3)
+    ctx.try_rule(viewlive.rule_alias_rebind, p, 'ALIAS-REBIND')
     ctx.try_rule(rule_view_read, p, 'VIEW-READ')
     ctx.try_rule(rule_view_write, p, 'VIEW-WRITE')
     ctx.try_rule(rule_view_sem, p, 'VIEW-SEM', 3 if ctx.tier == 'quick' else 5)
@@ -1469,8 +1470,63 @@ def rule_view_sem(ctx: RuleContext, p: Program, rid: str, max_raw: int = 4) -> N
                                                   f'{[x.label + "=" + x.f["val"] for x in keep]}')
                     elif [id(x) for x in now_raw if x.cls == 'Other'] != [id(x) for x in before_raw if x.cls == 'Other']:
                         problems.setdefault(meth, f'{shown}: items that do not belong to the view were removed or reordered')
+        # read-only Sequence methods the class spells itself (inherited ones are built from __len__ / __getitem__, decided above): the
+        # answer a list of the view's values gives, for every start / stop, negative and out-of-range ones included
+        for meth in ('index', 'count', '__contains__', '__reversed__'):
+            fn = vw.lookup(meth)
+            if not isinstance(fn, FuncInfo) or fn.cls is not vw or nview < 1:
+                continue
+            for pattern in ('aaaa', 'abab', 'abba'):
+                me0, raw0 = mk(kinds)
+                vals = [pattern[k_ % len(pattern)] for k_ in range(nview)]
+                grid: list[list] = [[]]
+                if meth == 'index':
+                    bounds = list(range(-nview - 2, nview + 3))
+                    grid = [[]] + [[a_] for a_ in bounds] + [[a_, b_] for a_ in bounds for b_ in bounds + [None]]
+                for target in ('a', 'b', 'z'):
+                    for extra in grid:
+                        if meth in ('__reversed__',) and target != 'a':
+                            continue
+                        me, raw = mk(kinds)
+                        me.f['_from_raw_type'] = by_val
+                        mine = [x for x in raw if x.cls == 'Mine']
+                        for k_, x in enumerate(mine):
+                            x.f['val'] = vals[k_]
+                        n += 1
+                        want_exc = None
+                        want: Any = None
+                        try:
+                            if meth == 'index':
+                                want = vals.index(target, *[a_ for a_ in extra if a_ is not None])
+                            elif meth == 'count':
+                                want = vals.count(target)
+                            elif meth == '__contains__':
+                                want = target in vals
+                            else:
+                                want = list(reversed(vals))
+                        except ValueError:
+                            want_exc = 'ValueError'
+                        got_exc = None
+                        got: Any = None
+                        try:
+                            args_ = [] if meth == '__reversed__' else [target] + list(extra)
+                            got = Interp(me).call_function(fn, [me] + args_, {})
+                            if meth == '__reversed__':
+                                got = list(possem.PosInterp.iter_of(Interp(me), got, fn.node))
+                        except possem.Raised as ex:
+                            got_exc = str(ex).split(':', 1)[0].strip()
+                        shown = f'raw list {kinds} with the view\'s values {vals}, {meth}({", ".join(repr(a_) for a_ in ([target] + list(extra) if meth != "__reversed__" else []))})'
+                        if (got_exc or None) != want_exc and not (got_exc and want_exc):
+                            problems.setdefault(meth, f'{shown}: {"raises " + got_exc if got_exc else "returns " + repr(got)}, a list of the values {"raises " + want_exc if want_exc else "gives " + repr(want)}')
+                        elif not want_exc and got != want:
+                            problems.setdefault(meth, f'{shown}: returns {got!r}, a list of the values gives {want!r}')
     if n < 800:
         raise AnalysisError(f'VIEW-SEM: only {n} calls evaluated')
+    for meth in ('index', 'count', '__contains__', '__reversed__'):
+        fn = vw.lookup(meth)
+        if isinstance(fn, FuncInfo) and fn.cls is vw:
+            ctx.check(meth not in problems, rid, f'models.internal.value_properties:RepeatedValueWrapper.{meth}', 'list semantics of the filtered view',
+                      problems.get(meth, ''), fn.where, note=f'{len(layouts)} raw layouts')
     for meth in ('__len__', '__iter__', '__getitem__', '__setitem__', '__delitem__', 'insert', 'append', 'extend', 'pop', 'remove', 'discard', 'clear'):
         fn = vw.lookup(meth)
         if not isinstance(fn, FuncInfo):
